@@ -257,6 +257,76 @@ def run(ctx, res):
             res.bad("CYCLE-GUARD", L.path + " # recursion",
                     "the recursive import load is not guarded by `paths_seen.contains(path)` false-edge + `paths_seen.insert(path)` (cyclic imports would loop)",
                     L.loc(t["span"]))
+    # ---------------- CYCLE-KEY-NORMAL: the key tested in paths_seen must be a canonical path, otherwise a
+    # cycle through `..` or `.` gets a fresh identity on every round and the loader recurses without bound.
+    def leaf_calls(f, op, depth=0, seen=None):
+        """calls that produce the value of operand op, looking through moves, clones, refs and multi-def joins."""
+        seen = seen if seen is not None else set()
+        out = []
+        r = f.root_of(op, through_named=True)
+        if r[0] == "call":
+            n = M.callee_name(r[2]) or ""
+            if n.endswith(("::clone", "::to_owned", "::to_path_buf", "::as_ref", "::deref", "::borrow")) and r[2]["args"] and depth < 8:
+                inner = leaf_calls(f, r[2]["args"][0], depth + 1, seen)
+                return inner if inner else [r[2]]
+            return [r[2]]
+        if r[0] == "place":
+            l = r[1]["l"]
+            if l in seen or depth > 8 or l <= f.argc:
+                return [("arg-or-field", M.place_key(r[1]))] if l <= f.argc else []
+            seen.add(l)
+            for d in f.defs.get(l, []):
+                if d[1] == "term":
+                    out += leaf_calls(f, {"copy": {"l": l, "p": []}}, depth + 1, set()) if False else [d[2]]
+                else:
+                    rv = d[2]["rv"]
+                    if rv["k"] == "use":
+                        out += leaf_calls(f, rv["a"], depth + 1, seen)
+                    elif rv["k"] == "ref":
+                        out += leaf_calls(f, {"copy": rv["place"]}, depth + 1, seen)
+            return out
+        return out
+    keys = []
+    for sw_ in seen_sw:
+        keys.append(sw_["call"]["args"][1])
+    res.floor("CYCLE-KEY-NORMAL", "paths_seen.contains tests", len(keys), 1)
+    for k in keys:
+        leaves = leaf_calls(L, k)
+        names = []
+        bad_leaf = []
+        for c in leaves:
+            if isinstance(c, tuple):
+                names.append(c[0] + ":" + c[1]); continue
+            n = M.callee_name(c) or "?"
+            short = n.split("::")[-1]
+            names.append(short)
+            if n.endswith("NormalizePath::normalize") or short == "normalize":
+                continue
+            if short == "join":
+                # working_directory.join(<normalised relative path>)
+                inner = leaf_calls(L, c["args"][1]) if len(c["args"]) > 1 else []
+                if inner and all((not isinstance(i, tuple)) and (M.callee_name(i) or "").endswith("normalize") for i in inner):
+                    continue
+                bad_leaf.append("join(.., <not normalised>)")
+                continue
+            if short in ("to_owned", "clone", "to_path_buf"):
+                # the built-in `__*.gdn` names are used verbatim: must be under the starts_with("__") test
+                bi = [b for b, t in L.calls() if t is c]
+                guarded = False
+                for s2 in D.call_switches(L, "::starts_with", None):
+                    if bi and s2["true"] is not None and bi[0] in D.edge_dominated(L, s2["bb"], s2["true"]):
+                        guarded = True
+                if guarded:
+                    continue
+                bad_leaf.append(short + " outside the `__` built-in branch")
+                continue
+            bad_leaf.append(short)
+        if leaves and not bad_leaf:
+            res.ok("CYCLE-KEY-NORMAL", "cycle key derives from %s" % sorted(set(names)))
+        else:
+            res.bad("CYCLE-KEY-NORMAL", L.path + " # cycle-key # %s" % sorted(set(bad_leaf or ["no-provenance"])),
+                    "the path tested in `paths_seen` is not canonical (derives from %s): a cyclic import through `..`/`.` "
+                    "gets a new identity each round and loading never terminates" % sorted(set(names)), L.loc())
     res.extra["functions_analysed"] = 5
     res.explanation = (
         "Visibility of imported definitions, decided on MIR CFGs: the two places that hand out a member of an imported namespace "
@@ -264,4 +334,4 @@ def run(ctx, res):
         "path from the lookup hit, with the value push edge-dominated by the test's true edge and the false edge raising the "
         "error; unqualified imports copy only tested members; exported_syms is maintained only by load_toplevel_items_ with "
         "Public=>insert / CurrentFile=>remove on every path that stores a definition; the recursive load is behind the "
-        "paths_seen test so cyclic imports terminate. Re-exports through chains and type visibility are not decided.")
+        "paths_seen test, whose key is shown to come from normalize() (CYCLE-KEY-NORMAL), so cyclic imports terminate. Re-exports through chains and type visibility are not decided.")
